@@ -2,15 +2,16 @@
 # dev helper: generate N scenarios per family with seed S, run them, validate with TLC, summarise clause hits
 S=${1:-1}; N=${2:-200}; BIN=${3:-/verif/_work/bin/simrun_gen}
 D=${DEVLOOP_DIR:-/tmp/t}; mkdir -p $D
+FAMS=${FAMS:-"send recv lifecycle connect caps keepalive crash session"}
 make -s -C /verif/harness -j2 > /dev/null 2>&1; cd /verif/spec
-for f in send recv lifecycle connect caps keepalive; do
+for f in $FAMS; do
   ( python3 /verif/tools/gen.py $f $S $N > $D/s_$f.ndjson
     $BIN $D/s_$f.ndjson $D/t_$f.ndjson 2> $D/r_$f.txt
     rm -rf $D/md_$f
     TRACE=$D/t_$f.ndjson timeout 900 tlc -workers 1 -metadir $D/md_$f -config TraceObserver.cfg TraceObserver.tla > $D/o_$f.txt 2>&1 ) &
 done
 wait
-for f in send recv lifecycle connect caps keepalive; do
+for f in $FAMS; do
   echo "== $f: $(cat $D/r_$f.txt | tr '\n' ' ') $(grep -E 'states generated' $D/o_$f.txt | cut -d' ' -f1-3)"
   grep -E "REJECT|rror|xception" $D/o_$f.txt | head -5
   grep "VIOL " $D/o_$f.txt | tr -d '"' | cut -d' ' -f4 | sort | uniq -c | sort -rn | head -20
